@@ -121,6 +121,10 @@ Fixpoint lookup_obs (i : nat) (w : writer) (obs : list (nat * writer * bytes)) :
   | (j, v, p) :: r => if Nat.eqb i j && N.eqb w v then p else lookup_obs i w r
   end.
 
+(* a connection that counts the Flush calls of its bufio.Writer *)
+Definition count_w : wfn (bytes * nat) := fun s p => ((fst s ++ p, snd s), length p, false).
+Definition count_flush : flushfn (bytes * nat) := fun s => ((fst s, S (snd s)), false).
+
 Inductive c13_case :=
 (* the hook VerifC13ReadLines: readLine variant, buffer size, stream, max calls; per call
    (line, isPrefix, err) and everything handed to the dumper *)
@@ -129,7 +133,12 @@ Inductive c13_case :=
 (* client-level / request-level options as given to SetCommonDumpOptions / SetDumpOptions
    (request buffer = writer 2), the exchanges, content of every (dumper, writer) *)
 | ExchCase (client request : option options) (xs : list exch)
-           (obs : list (nat * writer * bytes)).
+           (obs : list (nat * writer * bytes))
+(* a streamed (chunked) HTTP/1.1 upload whose producer yields the next part only after the origin
+   has received the previous one: [progress] = no part had to wait for more than the generous
+   bound, i.e. every chunk was flushed on its own *)
+| FlushCase (client request : option options) (header_block : bytes) (chunks : list bytes)
+            (progress : bool).
 
 Definition w_reqbuf : writer := 2%N.
 
@@ -142,6 +151,11 @@ Definition c13_check (c : c13_case) : bool :=
   | LineCase dumping n input max obs dumped =>
       let rs := read_lines (read_line dumping) n max input in
       list_eqb rl_obs_eqb rs obs && bytes_eqb (concat (map rl_dumped rs)) dumped
+  | FlushCase client request hb chunks progress =>
+      let ds := get_dumpers (option_map (client_set_options None) client)
+                            (option_map (request_set_options w_reqbuf) request) in
+      let sr := fst (h1_send_f count_flush ds count_w ([], 0) (mkH1Req [hb] (Some chunks) true false)) in
+      Bool.eqb progress (Nat.eqb (snd (sr_state sr)) (length (filter nonempty chunks)))
   | ExchCase client request xs obs =>
       let ds := get_dumpers (option_map (client_set_options None) client)
                             (option_map (request_set_options w_reqbuf) request) in
